@@ -320,6 +320,23 @@ theorem regLoop_inv (H : Hier) (new : Ty) (snap : Forest) :
     intro cur reg hs hc
     obtain ⟨hs1, hs2, hs3⟩ := hs
     unfold regLoop
+    by_cases h0 : (c == new) = true
+    · -- re-registration: the item moves to the end with its subtree
+      simp only [h0, if_true]
+      have hcn : c = new := by simpa using h0
+      have hsub := hc.getD c
+      have he : TreeInv H (cur.erase c) := hc.erase c
+      have k1 : TreeInv H ((cur.erase c).set new ((cur.get? c).getD .nil)) :=
+        he.set hsub.1 (fun x hx => hcn ▸ hsub.2 x hx)
+      obtain ⟨r1, r2⟩ := ihr _ true hs3 k1
+      refine ⟨r1, fun x hx => ?_⟩
+      rcases r2 x hx with hx | hx | hx
+      · exact Or.inl hx
+      · rcases (Forest.mem_roots_set _ _ _ _).1 hx with hx | hx
+        · exact Or.inl hx
+        · exact Or.inr (Or.inl (Forest.mem_roots_erase hx))
+      · exact Or.inr (Or.inr (by simp [Forest.roots, hx]))
+    simp only [h0, Bool.false_eq_true, if_false]
     by_cases h1 : H.sub c new = true
     · simp only [h1, if_true]
       have hsub := hc.getD c
@@ -530,7 +547,8 @@ end Forest
 /-- one iteration of the loop (the recursive call of the `elif` branch is `regFuzzy`) -/
 theorem regLoop_cons (H : Hier) (new c : Ty) (kids rest cur : Forest) (reg : Bool) :
     regLoop H new (.cons c kids rest) cur reg =
-      if H.sub c new then
+      if c == new then regLoop H new rest ((cur.erase c).set new ((cur.get? c).getD .nil)) true
+      else if H.sub c new then
         regLoop H new rest
           (match (cur.erase c).get? new with
             | some newKids => (cur.erase c).set new (newKids.set c ((cur.get? c).getD .nil))
@@ -541,41 +559,48 @@ theorem regLoop_cons (H : Hier) (new c : Ty) (kids rest cur : Forest) (reg : Boo
 
 /-- no item related to `new`: the loop does nothing -/
 theorem regLoop_skip (H : Hier) (new : Ty) (snap : Forest) :
-    ∀ cur reg, (∀ c ∈ snap.roots, H.sub c new = false ∧ H.sub new c = false) →
+    ∀ cur reg, (∀ c ∈ snap.roots, H.sub c new = false ∧ H.sub new c = false) → new ∉ snap.roots →
       regLoop H new snap cur reg = (cur, reg) := by
   induction snap with
-  | nil => intro cur reg _; rfl
+  | nil => intro cur reg _ _; rfl
   | cons c kids rest _ ihr =>
-    intro cur reg h
+    intro cur reg h hn
     have hc := h c (by simp [Forest.roots])
-    rw [regLoop_cons]; simp only [hc.1, hc.2]
-    exact ihr cur reg (fun x hx => h x (by simp [Forest.roots, hx]))
+    simp only [Forest.roots, List.mem_cons, not_or] at hn
+    have hcn : (c == new) = false := by simpa using fun e : c = new => hn.1 e.symm
+    rw [regLoop_cons]; simp only [hcn, hc.1, hc.2]
+    exact ihr cur reg (fun x hx => h x (by simp [Forest.roots, hx])) hn.2
 
 /-- the same with an unrelated prefix in front of the snapshot -/
 theorem regLoop_skip_prefix (H : Hier) (new : Ty) (pre snap : Forest) :
-    ∀ cur reg, (∀ c ∈ pre.roots, H.sub c new = false ∧ H.sub new c = false) →
+    ∀ cur reg, (∀ c ∈ pre.roots, H.sub c new = false ∧ H.sub new c = false) → new ∉ pre.roots →
       regLoop H new (pre.app snap) cur reg = regLoop H new snap cur reg := by
   induction pre with
-  | nil => intro cur reg _; rfl
+  | nil => intro cur reg _ _; rfl
   | cons c kids rest _ ihr =>
-    intro cur reg h
+    intro cur reg h hn
     have hc := h c (by simp [Forest.roots])
+    simp only [Forest.roots, List.mem_cons, not_or] at hn
+    have hcn : (c == new) = false := by simpa using fun e : c = new => hn.1 e.symm
     simp only [Forest.app]
-    rw [regLoop_cons]; simp only [hc.1, hc.2]
-    exact ihr cur reg (fun x hx => h x (by simp [Forest.roots, hx]))
+    rw [regLoop_cons]; simp only [hcn, hc.1, hc.2]
+    exact ihr cur reg (fun x hx => h x (by simp [Forest.roots, hx])) hn.2
 
 /-- **mode P** — no item is a subtype of `new`: only the recursive `elif` branch fires, each
     matching item has its subtree replaced by the recursive result, in place -/
 theorem regLoop_modeP (H : Hier) (new : Ty) (snap : Forest) :
-    ∀ (pre : Forest) (reg : Bool), (∀ c ∈ snap.roots, H.sub c new = false) → (pre.roots ++ snap.roots).Nodup →
+    ∀ (pre : Forest) (reg : Bool), (∀ c ∈ snap.roots, H.sub c new = false) → new ∉ snap.roots →
+      (pre.roots ++ snap.roots).Nodup →
       regLoop H new snap (pre.app snap) reg =
         (pre.app (snap.mapKids (fun c kids => if H.sub new c then regFuzzy H new kids else kids)),
          reg || snap.roots.any (fun c => H.sub new c)) := by
   induction snap with
-  | nil => intro pre reg _ _; simp [regLoop, Forest.mapKids, Forest.roots]
+  | nil => intro pre reg _ _ _; simp [regLoop, Forest.mapKids, Forest.roots]
   | cons c kids rest _ ihr =>
-    intro pre reg h hnd
+    intro pre reg h hnew hnd
     have hc := h c (by simp [Forest.roots])
+    simp only [Forest.roots, List.mem_cons, not_or] at hnew
+    have hcn : (c == new) = false := by simpa using fun e : c = new => hnew.1 e.symm
     have hcpre : c ∉ pre.roots := by
       intro hm
       have := (List.nodup_append.1 hnd).2.2 c hm c (by simp [Forest.roots])
@@ -584,19 +609,19 @@ theorem regLoop_modeP (H : Hier) (new : Ty) (snap : Forest) :
         ++ rest.roots).Nodup := by
       simpa [Forest.roots_app, Forest.roots, List.append_assoc] using hnd
     have hrest : ∀ x ∈ rest.roots, H.sub x new = false := fun x hx => h x (by simp [Forest.roots, hx])
-    rw [regLoop_cons]; simp only [hc]
+    rw [regLoop_cons]; simp only [hcn, hc]
     by_cases h2 : H.sub new c = true
     · simp only [h2, if_true]
       rw [Forest.set_app_right _ _ hcpre]
       simp only [Forest.set, beq_self_eq_true, if_true]
-      have := ihr (pre.app (.cons c (regFuzzy H new kids) .nil)) true hrest (by simpa [h2] using hnd')
+      have := ihr (pre.app (.cons c (regFuzzy H new kids) .nil)) true hrest hnew.2 (by simpa [h2] using hnd')
       rw [Forest.app_assoc] at this
       simp only [Forest.app] at this
       rw [this]
       simp [Forest.mapKids, Forest.roots, h2, Forest.app_assoc, Forest.app]
     · simp only [h2]
       have h2' : H.sub new c = false := by simpa using h2
-      have := ihr (pre.app (.cons c kids .nil)) reg hrest (by simpa [h2'] using hnd')
+      have := ihr (pre.app (.cons c kids .nil)) reg hrest hnew.2 (by simpa [h2'] using hnd')
       rw [Forest.app_assoc] at this
       simp only [Forest.app] at this
       simp only [Bool.false_eq_true, if_false]
@@ -654,7 +679,9 @@ theorem regLoop_modeS (H : Hier) (new : Ty) (snap : Forest) :
     have hcmv : c ∉ (mv.getD .nil).roots := by
       intro hm
       exact (List.nodup_append.1 hnd1).2.2 c (by simp) c hm rfl
+    have hcn : (c == new) = false := by simpa using fun e : c = new => hns.1 e.symm
     rw [regLoop_cons]
+    simp only [hcn, Bool.false_eq_true, if_false]
     rcases hc with hc | ⟨hc1, hc2⟩
     · -- first branch: pop `c`, attach it under `new`
       simp only [hc, if_true]
@@ -716,28 +743,24 @@ theorem regLoop_modeS (H : Hier) (new : Ty) (snap : Forest) :
       rw [ihr _ mv reg hrest hnp' hns.2 hnd2]
       simp [Forest.filterR, hc1, Forest.roots, Forest.app_cons_nil, Forest.app_assoc, Forest.app]
 
-/-- **mode R** — `new` is itself a key of this dict, is its own subclass, and every other key is
-    unrelated to it (re-registration): the item is popped and wrapped, `new: {new: old subtree}`,
-    at the end of the dict -/
+/-- **mode R** — `new` is itself a key of this dict and every other key is unrelated to it
+    (re-registration): the item is popped and put back, with its subtree, at the end of the dict -/
 theorem regLoop_modeR (H : Hier) (new : Ty) (pre K post : Forest) (reg : Bool)
-    (hrefl : H.sub new new = true)
     (hpre : ∀ c ∈ pre.roots, H.sub c new = false ∧ H.sub new c = false)
     (hpost : ∀ c ∈ post.roots, H.sub c new = false ∧ H.sub new c = false)
     (hnp : new ∉ pre.roots) (hnq : new ∉ post.roots) :
     regLoop H new (pre.app (.cons new K post)) (pre.app (.cons new K post)) reg =
-      ((pre.app post).app (.cons new (.cons new K .nil) .nil), true) := by
-  rw [regLoop_skip_prefix H new pre _ _ reg hpre, regLoop_cons]
-  simp only [hrefl, if_true]
+      ((pre.app post).app (.cons new K .nil), true) := by
+  rw [regLoop_skip_prefix H new pre _ _ reg hpre hnp, regLoop_cons]
+  simp only [beq_self_eq_true, if_true]
   have hget : (pre.app (Forest.cons new K post)).get? new = some K := by
     rw [Forest.get?_app_right _ hnp]; simp [Forest.get?]
   have herase : (pre.app (Forest.cons new K post)).erase new = pre.app post := by
     rw [Forest.erase_app_right _ hnp]; simp [Forest.erase]
-  have hnone : (pre.app post).get? new = none :=
-    Forest.get?_none_of_not_mem (by simp [Forest.roots_app, hnp, hnq])
-  rw [hget, herase, hnone]
+  rw [hget, herase]
   simp only [Option.getD]
   rw [Forest.set_of_not_mem _ (by simp [Forest.roots_app, hnp, hnq])]
-  exact regLoop_skip H new post _ true hpost
+  exact regLoop_skip H new post _ true hpost hnq
 
 /-! #### the registry's structural invariant: sibling keys distinct and pairwise unrelated -/
 
@@ -934,47 +957,25 @@ theorem regFuzzy_good (H : Hier)
       fun c hc => (gcross c hc new (by simp [Forest.roots])).2
     have hpost : ∀ c ∈ post.roots, H.sub c new = false ∧ H.sub new c = false :=
       fun c hc => (hpostU c hc).symm
-    by_cases hrefl : H.sub new new = true
-    · rw [regLoop_modeR H new pre K post false hrefl hpre hpost hnp hnq]
-      simp only [regFinish, if_true]
+    rw [regLoop_modeR H new pre K post false hpre hpost hnp hnq]
+    simp only [regFinish, if_true]
+    constructor
+    · apply GoodF.app
+      · exact gpre.app gpost (fun x hx y hy =>
+          gcross x hx y (by simp [Forest.roots, hy]))
+      · exact ⟨by simp [Forest.roots], by simp [Forest.roots], gK, trivial⟩
+      · intro x hx y hy
+        simp only [Forest.roots, List.mem_singleton] at hy
+        subst hy
+        rw [Forest.roots_app] at hx
+        rcases List.mem_append.1 hx with hx | hx
+        · exact ⟨fun e => hnp (e ▸ hx), hpre x hx⟩
+        · exact ⟨fun e => hnq (e ▸ hx), hpost x hx⟩
+    · intro x
+      simp only [Forest.nodes_app, Forest.nodes, List.mem_append, List.mem_cons, List.append_nil]
       constructor
-      · apply GoodF.app
-        · exact gpre.app gpost (fun x hx y hy =>
-            gcross x hx y (by simp [Forest.roots, hy]))
-        · exact ⟨by simp [Forest.roots], by simp [Forest.roots],
-            ⟨by simp [Forest.roots], by simp [Forest.roots], gK, trivial⟩, trivial⟩
-        · intro x hx y hy
-          simp only [Forest.roots, List.mem_singleton] at hy
-          subst hy
-          rw [Forest.roots_app] at hx
-          rcases List.mem_append.1 hx with hx | hx
-          · exact ⟨fun e => hnp (e ▸ hx), hpre x hx⟩
-          · exact ⟨fun e => hnq (e ▸ hx), hpost x hx⟩
-      · intro x
-        simp only [Forest.nodes_app, Forest.nodes, List.mem_append, List.mem_cons, List.append_nil,
-          List.not_mem_nil, or_false]
-        constructor
-        · rintro ((h | h) | h | h | h) <;> simp [h]
-        · rintro (h | h | h | h | h) <;> simp [h]
-    · have hrefl' : H.sub new new = false := by simpa using hrefl
-      have hall : ∀ c ∈ (pre.app (Forest.cons new K post)).roots,
-          H.sub c new = false ∧ H.sub new c = false := by
-        intro c hc
-        rw [Forest.roots_app] at hc
-        rcases List.mem_append.1 hc with hc | hc
-        · exact hpre c hc
-        · simp only [Forest.roots, List.mem_cons] at hc
-          rcases hc with hc | hc
-          · subst hc; exact ⟨hrefl', hrefl'⟩
-          · exact hpost c hc
-      rw [regLoop_skip H new _ _ false hall]
-      have hsome : ((pre.app (Forest.cons new K post)).get? new).isSome = true :=
-        (Forest.get?_isSome_iff _ _).2 hmem
-      simp only [regFinish, Bool.false_eq_true, if_false, hsome, if_true]
-      refine ⟨hf, fun x => ⟨Or.inr, fun h => ?_⟩⟩
-      rcases h with h | h
-      · subst h; exact Forest.roots_subset_nodes hmem
-      · exact h
+      · rintro ((h | h) | h | h) <;> simp [h]
+      · rintro (h | h | h | h | h) <;> simp [h]
   · by_cases hsub : ∃ s ∈ f.roots, H.sub s new = true
     · -- mode S
       obtain ⟨s0, hs0, hs0n⟩ := hsub
@@ -1028,7 +1029,7 @@ theorem regFuzzy_good (H : Hier)
         · exact absurd ⟨c, hc, h⟩ hsub
         · simpa using h
       have hnd : (Forest.nil.roots ++ f.roots).Nodup := by simpa [Forest.roots] using hf.nodup
-      have := regLoop_modeP H new f .nil false hno hnd
+      have := regLoop_modeP H new f .nil false hno hmem hnd
       simp only [Forest.app] at this
       rw [this]
       have gmap : GoodF H (f.mapKids fun c kids => if H.sub new c then regFuzzy H new kids else kids) := by
